@@ -837,6 +837,25 @@ def hQuiescent (inp out : Json) : Except String Findings := do
   let fs := spec fs "C14.quiescent" (Spec.C02.statusQuiescent v.eds v.nodes v.pods)
   return fs
 
+/-- C11: the faulted run, after recovery, reaches the same pods and status as the failure-free run
+(modulo generated names and timestamps). -/
+def viewKey (v : ViewJ) : String :=
+  let own := Spec.C02.ownPods v.eds v.pods
+  let pods := sortStrs (own.map (fun p => s!"{p.node}:{p.hash}:{p.ready}:{p.phase}:{p.terminating}"))
+  let st := v.eds.status
+  s!"pods={pods} spec={v.eds.templateHash} active={v.activeHash} d={st.desired} c={st.current} r={st.ready} a={st.available} u={st.upToDate} state={st.state} canary={flat st.canary} ann=[{smapStr v.eds.annotations}]"
+
+def hSameFixpoint (inp out : Json) : Except String Findings := do
+  let base : ViewJ ← get inp "baseline"
+  let fv : ViewJ ← get inp "faulted"
+  let conv : Bool ← get out "converged"
+  let fs : Findings := #[]
+  let fs := spec fs "C11.recovers(converges after the fault)" conv
+  let fs := spec fs "C11.fixpoint-after-fault" (Spec.C02.fixpoint fv.eds fv.nodes fv.pods)
+  let fs := if viewKey base == viewKey fv then fs else
+    fs.push s!"SPEC C11.same-fixpoint faulted={viewKey fv} baseline={viewKey base}"
+  return fs
+
 structure StepJ where
   fn : String
   op : String
@@ -874,7 +893,8 @@ def hScenario (_inp out : Json) : Except String Findings := do
   let mut fs : Findings := #[]
   let mut k := 0
   for st in steps do
-    let h := if st.fn == "quiescent" then some hQuiescent else handlers.lookup st.fn
+    let h := if st.fn == "quiescent" then some hQuiescent
+             else if st.fn == "same_fixpoint" then some hSameFixpoint else handlers.lookup st.fn
     match h with
     | none => fs := fs.push s!"DIFF step{k} unknown fn {st.fn}"
     | some h =>
@@ -883,7 +903,10 @@ def hScenario (_inp out : Json) : Except String Findings := do
       | .error e => fs := fs.push s!"DIFF step{k} bad-op {e}"
       | .ok fsk =>
         for f in fsk do
-          if !(faulted && f.startsWith "DIFF") then
+          -- under a fault the step's writes are a subset of the planned ones: safety clauses still
+          -- apply, "this write must happen" clauses and the exact status do not
+          let completeness := ["SPEC C07.rollback-writes", "SPEC C09.stamp", "SPEC C14.", "SPEC C16.no-default-loop"].any (fun pre => f.startsWith pre)
+          if !(faulted && (f.startsWith "DIFF" || completeness)) then
             fs := fs.push (f ++ s!" @step{k}[{st.op}]")
     k := k + 1
   return fs
